@@ -61,7 +61,7 @@ def generator_cases(out):
     from jaxtyping import _storage
 
     def depth():
-        return len(getattr(_storage._shape_storage, "memo_stack", []) or [])
+        return impl_prog.stack_depth()
 
     x = Duck((3,), "float32")
     for style in ("new-typeguard", "none", "old"):
